@@ -209,7 +209,11 @@ func c13Dial(network string, beh string) func(e *c13Env) (func(), error) {
 		if al != nil {
 			defer al.Close()
 		}
-		conn, err := sonic.DialTimeout(e.ioc, network, fmt.Sprintf("127.0.0.1:%d", port), 20*time.Millisecond)
+		opts := []sonicopts.Option{sonicopts.ReuseAddr(true)}
+		if network == "tcp" {
+			opts = append(opts, sonicopts.NoDelay(true))
+		}
+		conn, err := sonic.DialTimeout(e.ioc, network, fmt.Sprintf("127.0.0.1:%d", port), 20*time.Millisecond, opts...)
 		if err != nil {
 			return nil, err
 		}
@@ -249,12 +253,13 @@ var c13Cases = []c13Case{
 		return nil, fmt.Errorf("unused %v", ln)
 	}},
 	{name: "NewPacketConn", build: func(e *c13Env) (func(), error) {
-		pc, err := sonic.NewPacketConn(e.ioc, "udp", fmt.Sprintf("127.0.0.1:%d", e.nextPort()))
+		// with options, so that every socket option the constructor may apply is among the calls that are failed
+		pc, err := sonic.NewPacketConn(e.ioc, "udp", fmt.Sprintf("127.0.0.1:%d", e.nextPort()), sonicopts.ReuseAddr(true), sonicopts.ReusePort(true), sonicopts.Nonblocking(true))
 		if err != nil {
 			return nil, err
 		}
 		return func() { pc.Close() }, nil
-	}, behaviours: []string{"bind-conflict", "non-local-bind"}},
+	}, behaviours: []string{"bind-conflict", "non-local-bind", "stream-option-on-datagram-socket"}},
 	{name: "NewUDPPeer", build: func(e *c13Env) (func(), error) {
 		p, err := multicast.NewUDPPeer(e.ioc, "udp", fmt.Sprintf(":%d", e.nextPort()))
 		if err != nil {
@@ -424,6 +429,15 @@ func runC13Enum(c *Ctx, v int) {
 				}
 				return func() { ln.Close() }, nil
 			}
+		case beh == "stream-option-on-datagram-socket":
+			b = func(e *c13Env) (func(), error) {
+				pc, err := sonic.NewPacketConn(e.ioc, "udp", fmt.Sprintf("127.0.0.1:%d", e.nextPort()), sonicopts.ReuseAddr(true), sonicopts.NoDelay(true))
+				if err != nil {
+					return nil, err
+				}
+				// the library may ignore options it does not apply to datagram sockets: then this is a plain success
+				return func() { pc.Close() }, nil
+			}
 		case beh == "non-local-bind" && cs.name == "Listen":
 			b = func(e *c13Env) (func(), error) {
 				ln, err := sonic.Listen(e.ioc, "tcp", fmt.Sprintf("10.99.99.99:%d", e.nextPort()), sonicopts.Nonblocking(true))
@@ -471,7 +485,7 @@ func runC13Enum(c *Ctx, v int) {
 				return func() { f.Close() }, nil
 			}
 		}
-		attempt("peer/environment: "+beh, b, true)
+		attempt("peer/environment: "+beh, b, beh != "stream-option-on-datagram-socket")
 	}
 }
 
